@@ -173,7 +173,7 @@ var shapes = []string{
 	"inplace-file", "inplace-dir", "inplace-bundle", "separate-file", "separate-dir", "sync-dir", "sync-inplace",
 	"alias-symlink", "alias-hardlink", "stdin-file",
 	"to-stdout", "bundle-stdout", "bundle-file", "many-files-dir", "dir-noslash", "filters", "type-override", "ext-map",
-	"stdin-stdout", "rejected", "dir-without-r", "symlink-inputs", "big-dir", "dash-stdout",
+	"stdin-stdout", "rejected", "dir-without-r", "symlink-inputs", "big-dir", "dash-stdout", "many-failures",
 }
 
 const nCrashShapes = 10
@@ -403,6 +403,26 @@ func GenCase(tape *sim.Tape, crashBias bool) *Case {
 		if iv.Output == "src/" {
 			iv.Inputs = []string{"src/"}
 		}
+		iv.Verbose = 0
+	case "many-failures":
+		// hundreds of files the library rejects in one invocation (the exit status is what a
+		// parent process sees of the failure count)
+		if tape.Draw(6) != 0 {
+			// keep this expensive shape rare: fall back to a small in-place run
+			f := one("", minifiableExts, true)
+			iv.Inputs, iv.Output = []string{f}, f
+			break
+		}
+		n := []int{255, 256, 257, 512, 300}[tape.Draw(5)]
+		t.Entries = append(t.Entries, Entry{Path: "in", Kind: KDir})
+		for i := 0; i < n; i++ {
+			t.Entries = append(t.Entries, Entry{Path: fmt.Sprintf("in/bad%03d.json", i), Kind: KFile, Data: []byte("{ \"a\" : , }"), Mode: 0o644})
+		}
+		for i := 0; i < 3; i++ {
+			t.Entries = append(t.Entries, Entry{Path: fmt.Sprintf("in/good%d.json", i), Kind: KFile, Data: []byte("[ 1 , 2 ]"), Mode: 0o644})
+		}
+		iv.Recursive, iv.Quiet = true, true
+		iv.Inputs, iv.Output = []string{"in/"}, "out/"
 		iv.Verbose = 0
 	case "dash-stdout":
 		// "-" as output means stdout, "-" as the only input means stdin
